@@ -846,6 +846,18 @@ func (c *caseCtx) analyse(op string, events []*crashfs.Event, pend []pendingImag
 		// direct oracle on every image
 	}
 	w := wins[0]
+	// explicit ordering obligation of the out-of-order merge: no out-of-order data file is removed or parked before the
+	// intent log of the operation's first replacement exists (the inputs go only after the replacement is committed)
+	for i := 0; i < w.lo; i++ {
+		ev := events[i]
+		if ev.Kind != "remove" && ev.Kind != "rename" {
+			continue
+		}
+		if n, isInit, ok := relName(c.shardDir, ev.Path); ok && !isInit && strings.HasPrefix(n, "u/") {
+			opFail = append(opFail, "out-of-order input "+n+" was deleted before the replacement of the ordered files was committed")
+			break
+		}
+	}
 	nm := &namer{ids: map[string]int{}, cids: map[string]int{}}
 	// universe of names: fs0 + every path touched in the window, sorted by (directory, base name) = load order
 	uni := map[string]bool{}
